@@ -598,7 +598,7 @@ func Run(tier string, sh lib.Shard, rep *lib.Report) {
 	if tier == "thorough" {
 		depth, window = 4, 5
 	}
-	cps := []time.Duration{100 * time.Millisecond, 2 * time.Second}
+	cps := []time.Duration{100 * time.Millisecond, 2 * time.Second, 5 * time.Second} // 5s: longer than fallback + recovery
 	rep.Bounds["programs"] = len(progs)
 	rep.Bounds["exhaustive_history_depth_from_fresh"] = depth
 	rep.Bounds["covering_window_length"] = window
